@@ -130,12 +130,21 @@ class Monitor (object):
       self.halter = halter
       core.openflow.addListenerByName("ConnectionUp", halter, priority=-1000)
     self.thrower = None
+    self.thrower2 = None
     if self.upl == "throws":
       def thrower (e):
         self.rep.count("nexus_level_up_listeners_that_failed")
         raise RuntimeError("a component's ConnectionUp handler fails")
       self.thrower = thrower
       core.openflow.addListenerByName("ConnectionUp", thrower, priority=-1000)
+      # (the same component fails on the other events of a connection's life
+      #  too: they are owed to the connection's own listeners as well)
+      def thrower2 (e):
+        self.rep.count("nexus_level_down_or_port_status_listeners_that_failed")
+        raise RuntimeError("a component's handler fails")
+      self.thrower2 = thrower2
+      core.openflow.addListenerByName("ConnectionDown", thrower2, priority=-1000)
+      core.openflow.addListenerByName("PortStatus", thrower2, priority=-1000)
 
   def fire (self, key, what):
     self.bad = True
@@ -581,7 +590,8 @@ def _run_history (case, rep, w):
       pass
     for name, h in (("ConnectionUp", mon.on_up), ("ConnectionDown", mon.on_down),
                     ("PortStatus", mon.on_ps), ("ConnectionUp", mon.halter),
-                    ("ConnectionUp", mon.thrower)):
+                    ("ConnectionUp", mon.thrower), ("ConnectionDown", mon.thrower2),
+                    ("PortStatus", mon.thrower2)):
       if h is None: continue
       try: core.openflow.removeListener(h)
       except Exception: pass
